@@ -3,6 +3,7 @@
 //! (`{"i": input term, "o": observed output term, "tags": [...], "nt": bool}`).
 //! The Coq side (theories/Corr_*.v) evaluates the model on the same inputs and compares.
 mod e_builder;
+mod e_client;
 mod e_codec;
 mod e_convert;
 mod e_hasher;
@@ -36,6 +37,7 @@ fn main() {
         "hasher" => e_hasher::run(seed, n, tier),
         "codec" => e_codec::run(seed, n, tier),
         "server" => e_server::run(seed, n, tier),
+        "client" => e_client::run(seed, n, tier),
         "wantlist" => e_wantlist::run(seed, n, tier),
         "decodeserver" => e_codec::decode_server(),
         "incoming" => e_incoming::run(seed, n, tier),
